@@ -81,7 +81,7 @@ def _parser(v):
 # observation
 # --------------------------------------------------------------------------
 def obs_item(x):
-    from elementpath.datatypes import Float, UntypedAtomic
+    from elementpath.datatypes import Float, UntypedAtomic, AnyURI
     from elementpath.xpath_tokens import XPathFunction
     if isinstance(x, bool):
         return ['b', x]
@@ -98,6 +98,8 @@ def obs_item(x):
         return ['D', 'NaN' if math.isnan(x) else repr(x)]
     if isinstance(x, UntypedAtomic):
         return ['u', str(x.value)]
+    if isinstance(x, AnyURI):
+        return ['a', str(x.value)]
     if isinstance(x, str):
         return ['s', str(x)] if type(x) is str else ['?', type(x).__name__ + ':' + str(x)]
     if hasattr(x, 'tag'):
@@ -105,7 +107,7 @@ def obs_item(x):
         for i, e in enumerate(kids):
             if e is x:
                 return ['n', i]
-        return ['n', 'root' if x is _doc() else '?']
+        return ['n', -1 if x is _doc() else '?']
     if isinstance(x, XPathFunction):
         return ['fn', x.arity if hasattr(x, 'arity') else -1]
     return ['?', type(x).__name__]
